@@ -17,7 +17,8 @@ RULE = ("(membership) q in r  <=>  len(q) <= n and q occurs in some rotation of 
         "the word (oracle rotates, never doubles), equal for every rotation of r: "
         "exhaustive for all words over {A,C} of length 1-6 x all queries of length "
         "0..n+2, generated for ACGT words <= 40 with queries cut across the origin, "
-        "of length n and n+1, and mutated. (concatenation) r+x, x+r, r+=x for x in "
+        "of length n and n+1, and mutated; a quarter of these also replace r.seq by "
+        "another word of the same length after a first query and ask again. (concatenation) r+x, x+r, r+=x for x in "
         "str/Seq/SeqRecord/CircularRecord/int/None/list raise TypeError. (linear) "
         "wrapping a record or annotations declaring topology linear in any case "
         "raises ValueError. (slices) every (start, stop, step) gives exact type "
@@ -62,6 +63,17 @@ def _check_member(spec, ctx):
             got2 = sut(lambda: q in r2)
             if bool(got2) != want:
                 raise Violation("MEMBER", "%r in (r >> %d) is %r, expected %r" % (q, i, got2, want))
+    if spec.get("seq2"):
+        # the sequence of a record already queried is replaced (same length):
+        # membership is about the record as it is now
+        w2 = spec["seq2"][:n].ljust(n, "A")
+        r3 = CircularRecord(Seq(word), id="r")
+        sut(lambda: q in r3)
+        r3.seq = Seq(w2)
+        got3 = sut(lambda: q in r3)
+        if bool(got3) != _occurs(w2, q):
+            raise Violation("MEMBER-STALE", "%r in r is %r after r.seq was replaced by %r (was %r)"
+                            % (q, got3, w2, word))
     spanning = want and q != "" and q not in word
     ctx.note(spec, spanning, ["member:origin-spanning"] if spanning else
              ["member:%s" % ("yes" if want else "no")])
@@ -271,7 +283,10 @@ def _member_specs(draw):
         if style == 4 and q:
             i = draw(st.integers(0, len(q) - 1))
             q = q[:i] + draw(st.sampled_from("ACGT")) + q[i + 1:]
-    return {"kind": "member", "seq": word, "q": q, "real_rot": draw(st.booleans())}
+    spec = {"kind": "member", "seq": word, "q": q, "real_rot": draw(st.booleans())}
+    if draw(st.integers(0, 3)) == 0:
+        spec["seq2"] = draw(gen.dna_text(n, n))
+    return spec
 
 
 @st.composite
